@@ -9,7 +9,7 @@ import random
 from common import *
 import c13
 
-COQ_FILES = ['Lib/Str.v', 'Lib/NumOps.v', 'Gen/ClassificationPy.v', 'C06/Model.v', 'C06/Proofs.v', 'C06/Props.v']
+COQ_FILES = ['Lib/Str.v', 'Lib/NumOps.v', 'Gen/ClassificationPy.v', 'C06/Model.v', 'C06/Proofs.v', 'C06/Keys.v', 'C06/Props.v']
 SPECIAL = ['income', 'investment', 'transfer']
 KEYS = ['income_total', 'investment_total', 'spending_total', 'credits_total', 'transfers_in', 'transfers_out']
 
